@@ -215,7 +215,7 @@ def np_polygamma(m, x, out=None):
     This is changed because scipy.special.polygamma does not have 'out'.
     """
     if out is None:
-        out = np.copy(x)
+        return np.array(scipy.special.polygamma(m, x))
     out[...] = scipy.special.polygamma(m, x)
     return out
 
